@@ -50,7 +50,11 @@ func c04New(override bool, minTTL int) c04Inst {
 func (i c04Inst) ask(t *testing.T, q c04Q, id uint16) (a c04Ans, up bool, raw *dns.Msg) {
 	*i.called = false
 	rw := &c04RW{}
-	if err := i.h.ServeDNS(context.Background(), rw, c04Req(q, id)); err != nil {
+	// the server stamps every request with its time of ARRIVAL; the cache's clock is the time of
+	// processing, which may be later (worker queue, rate limiting, filtering)
+	ctx := dnsserver.ContextWithRequestInfo(context.Background(), &dnsserver.RequestInfo{
+		StartTime: VerifNow().Add(-[]time.Duration{0, 250 * time.Millisecond, 2 * time.Second, 5 * time.Second}[int(id)%4])})
+	if err := i.h.ServeDNS(ctx, rw, c04Req(q, id)); err != nil {
 		t.Fatalf("ServeDNS: %v", err)
 	}
 	return c04Digest(rw.msg), *i.called, rw.msg
@@ -107,34 +111,3 @@ func TestVerifC04Simple(t *testing.T) {
 	}
 }
 
-// TestVerifC04SimpleAges calls fromCacheItem directly with items of every age
-// from 0 to ttl+1 s in quarter seconds (DESIGN C04 B(ii)).
-func TestVerifC04SimpleAges(t *testing.T) {
-	out := vhOpen(t)
-	clk := &c04Clock{}
-	VerifNow = clk.Now
-	gcache.VerifNow = clk.Now
-	mw := NewMiddleware(&MiddlewareConfig{Count: 10})
-	beh := 0
-	for _, name := range []string{"a.1.k.example.", "a.2.k.example.", "c.3.k.example.", "n.2.k.example.", "x.1.k.example.", "g.3.k.example."} {
-		q := c04Q{Name: name, QType: dns.TypeA, QClass: dns.ClassINET}
-		req := c04Req(q, 7)
-		resp := c04Upstream(req)
-		cacheable, life := c04Oracle(resp, false, 0)
-		fresh := c04Digest(resp)
-		out.Emit(c04Event{Ev: "Reset", Cache: "simple-item", Beh: beh, Fresh: c04Ans{TTLs: []int{}}, Got: c04Ans{TTLs: []int{}}})
-		clk.q = 0
-		item := mw.toCacheItem(resp)
-		// the miss that stored it
-		out.Emit(c04Event{Ev: "Query", Now: 0, Key: c04Key(q, false), Q: q, Up: true, Cacheable: cacheable, Life: life,
-			Fresh: fresh, Got: fresh, Beh: beh, Cache: "simple-item"})
-		for age := 0; age <= life*4; age++ {
-			clk.q = age
-			got := c04Digest(mw.fromCacheItem(item, req))
-			out.Emit(c04Event{Ev: "Query", Now: age, Key: c04Key(q, false), Q: q, Up: false, Cacheable: cacheable, Life: life,
-				Fresh: fresh, Got: got, Beh: beh, Cache: "simple-item"})
-			out.Emit(c04Event{Ev: "Tick", D: 1, Now: age + 1, Beh: beh, Fresh: c04Ans{TTLs: []int{}}, Got: c04Ans{TTLs: []int{}}})
-		}
-		beh++
-	}
-}
